@@ -103,6 +103,12 @@ theorem sub_frame_node (P : Params) (hn : P.nested = false) (hl : P.loop = none)
   rw [(sub_spec P hn hl hf fuel _ hh hc).1]
   simp only [rewriteOutermost, hm]
 
+/-- **sub_wrapper.** The wrapper is the identity on parameters: for every setting `sub p = (subn p).1`.  In the model this
+holds by definition; that the real wrappers (`FST.sub`, `fst.match.sub`, the command line tool) forward every parameter
+is checked on every run by the wrapper sweep (harness/c18_wrap.py). -/
+theorem sub_wrapper (P : Params) (onLeave : Bool) (count : Int) (fuel : Nat) (t : Tree) :
+    sub P onLeave count fuel t = (run P onLeave count fuel t).trees := rfl
+
 /-- the whole-match template `__FST_` (any prefix letter) always fills, with a marked copy of the match -/
 theorem fills_identity (P : Params) (il : Bool) (ov : Option Bool) (ht : P.tmpl = .single (.slot none il ov)) :
     Fills P ∧ fillD P = fun _ u => [markRoot true (clean u)] := by
